@@ -40,6 +40,11 @@ class Gen:
 
     def byte(self):
         r = self.r
+        if getattr(self, "ascii_only", False):
+            x = r.random()
+            if x < 0.8: return r.randrange(0x20, 0x7F)
+            if x < 0.9: return r.choice([0x0D, 0x20, 0x24, 0x5E, 0x60, 0x7E, 0x41])
+            return r.randrange(0, 0x20)
         x = r.random()
         if x < 0.45: return r.randrange(0x20, 0x7F)
         if x < 0.65: return r.choice(self.byte_pool)
